@@ -23,8 +23,8 @@ Definition dispatch (kind : string) (args : list string) : string :=
         | Some ops =>
             let h := with_ch0 ops in
             let '(s, rs) := run c (init c) h in
-            let obs := show_run s rs in
             let tr := trace c (init c) h in
+            let obs := show_trace tr s in
             let fs := map (c12_fails c) tr in
             if all_nil fs then out3 obs obs "-"
             else out3 obs ("viol " ++ show_fails fs) (hist_key (c12_class c) (combine tr fs) None)
@@ -47,8 +47,8 @@ Definition dispatch (kind : string) (args : list string) : string :=
                 let s0 := restart_state (c_sub cA) cB saved in
                 let h := with_ch0 opsB in
                 let '(s, rs) := run cL s0 h in
-                let obs := show_run s rs in
                 let tr := trace cL s0 h in
+                let obs := show_trace tr s in
                 let fs := map (c12_fails cL) tr in
                 if all_nil fs then out3 obs obs "-"
                 else out3 obs ("viol " ++ show_fails fs) (hist_key (c12_class cL) (combine tr fs) None)
